@@ -69,10 +69,12 @@ var Mutants = map[string][]Mutant{
 	"C08": {
 		{"FastBounds quad max uses Min", "path.go", `xmax = math\.Max\(xmax, math\.Max\(cp\.X, end\.X\)\)`, `xmax = math.Max(xmax, math.Min(cp.X, end.X))`, "E3.homogeneity"},
 		{"FastBounds cubic ymin forgets cp2", "path.go", `ymin = math\.Min\(ymin, math\.Min\(cp1\.Y, math\.Min\(cp2\.Y, end\.Y\)\)\)`, `ymin = math.Min(ymin, math.Min(cp1.Y, end.Y))`, "E3."},
+		{"Bounds derives the top angle from the right angle", "path.go", `thetaTop := math\.Atan2\(ry\*cosphi, rx\*sinphi\)`, `thetaTop := thetaRight + 0.5*math.Pi`, "E3.arc-extrema"},
 		{"Bounds thetaTop radii swapped", "path.go", `thetaTop := math\.Atan2\(ry\*cosphi, rx\*sinphi\)`, `thetaTop := math.Atan2(rx*cosphi, ry*sinphi)`, "E3.arc-extrema"},
 		{"Rect.Add max reads the low field", "util.go", `x1 := math\.Max\(r\.X1, q\.X1\)`, `x1 := math.Max(r.X1, q.X0)`, "E3.mirror"},
 	},
 	"C09": {
+		{"half-turn shortcut taken for a chord equal to the radius", "path_util.go", `Equal\(math\.Abs\(x2-x1\), 2\.0\*rx\)`, "Equal(math.Abs(x2-x1), rx)", "E3.arc-shortcut"},
 		{"SplitAt reads the whole path's data", "path.go", `cp := Point\{ps\.d\[i\+1\], ps\.d\[i\+2\]\}\n\t\t\t\tend = Point\{ps\.d\[i\+3\], ps\.d\[i\+4\]\}\n\n\t\t\t\tif j == len\(ts\) \{\n\t\t\t\t\tq\.QuadTo`, "cp := Point{p.d[i+1], p.d[i+2]}\n\t\t\t\tend = Point{ps.d[i+3], ps.d[i+4]}\n\n\t\t\t\tif j == len(ts) {\n\t\t\t\t\tq.QuadTo", "E2.cursor-domain"},
 		{"Reverse ends a quad record with LineToCmd", "path.go", `q\.d = append\(q\.d, QuadToCmd, cx, cy, end\.X, end\.Y, QuadToCmd\)`, `q.d = append(q.d, QuadToCmd, cx, cy, end.X, end.Y, LineToCmd)`, "E2.record"},
 		{"post-advance quad case reads the cubic's control point offset", "path.go", `\t\tcp := Point\{p\.d\[i-5\], p\.d\[i-4\]\}\n\t\treturn quadraticBezierDeriv`, "\t\tcp := Point{p.d[i-7], p.d[i-6]}\n\t\treturn quadraticBezierDeriv", "E2.layout"},
@@ -86,12 +88,14 @@ var Mutants = map[string][]Mutant{
 		{"Close retags one end only", "path.go", `\t\tp\.d\[len\(p\.d\)-1\] = CloseCmd\n\t\tp\.d\[len\(p\.d\)-cmdLen\(LineToCmd\)\] = CloseCmd\n`, "\t\tp.d[len(p.d)-1] = CloseCmd\n", "E2.retag"},
 	},
 	"C11": {
+		{"upper-case closepath may be repeated", "path.go", `if cmd == 'z' \|\| cmd == 'Z' \|\| !\(path\[i\]`, "if cmd == 'z' || !(path[i]", "E4.parser-progress"},
 		{"ToSVG forgets the pen after an arc", "path.go", `\t\t\tlarge, sweep := toArcFlags\(p\.d\[i\+4\]\)\n\t\t\tx, y = p\.d\[i\+5\], p\.d\[i\+6\]\n\t\t\tsLarge := "0"\n\t\t\tif large \{\n\t\t\t\tsLarge = "1"\n\t\t\t\}\n\t\t\tsSweep := "0"\n\t\t\tif sweep \{\n\t\t\t\tsSweep = "1"\n\t\t\t\}\n\t\t\tif 90\.0 <= rot`, "\t\t\tlarge, sweep := toArcFlags(p.d[i+4])\n\t\t\tsLarge := \"0\"\n\t\t\tif large {\n\t\t\t\tsLarge = \"1\"\n\t\t\t}\n\t\t\tsSweep := \"0\"\n\t\t\tif sweep {\n\t\t\t\tsSweep = \"1\"\n\t\t\t}\n\t\t\tif 90.0 <= rot", "E2.pen"},
 		{"ParseSVGPath loses its guard", "path.go", `path\[0\] == ',' \|\| len\(path\) <= i \|\| path\[i\] < 'A'`, `path[0] == ',' || path[i] < 'A'`, "E4.index-guard"},
 		{"drawShape panics on <text> without x", "svg.go", `\tcase "text":\n\t\tsvg\.state\.textX`, "\tcase \"text\":\n\t\tif attrs[\"x\"] == \"\" {\n\t\t\tpanic(\"text without x\")\n\t\t}\n\t\tsvg.state.textX", "E4.panic-reach"},
 		{"number table larger than the buffer", "path.go", `\t\t'A': 7,\n`, "\t\t'A': 8,\n", "E4.table-bound"},
 	},
 	"C12": {
+		{"gradient bounds use a fixed stop", "renderers/pdf/writer.go", `bounds = append\(bounds, stops\[i\]\.Offset\)`, "bounds = append(bounds, stops[1].Offset)", "E11.const-index-in-loop"},
 		{"PS fill colour set after gsave", "renderers/ps/ps.go", `\t\tr\.setPaint\(style\.Fill\)\n\t\tif style\.HasStroke\(\) && !strokeUnsupported \{\n\t\t\tr\.w\.Write\(\[\]byte\(" gsave"\)\)\n\t\t\}\n`, "\t\tif style.HasStroke() && !strokeUnsupported {\n\t\t\tr.w.Write([]byte(\" gsave\"))\n\t\t}\n\t\tr.setPaint(style.Fill)\n", "E6.ps-grammar"},
 		{"PDF image opacity set inside q/Q again", "renderers/pdf/writer.go", `\tm = m\.Scale\(float64\(size\.X\), float64\(size\.Y\)\)\n\tfmt\.Fprintf\(w, " %v %v %v %v %v %v cm /%v Do Q"`, "\tm = m.Scale(float64(size.X), float64(size.Y))\n\tw.SetAlpha(0.5)\n\tfmt.Fprintf(w, \" %v %v %v %v %v %v cm /%v Do Q\"", "E5.grammar"},
 		{"SVG fall-back dashes unscaled", "renderers/svg/svg.go", `dashOffset, dashes := canvas\.ScaleDash\(style\.StrokeWidth, style\.DashOffset, style\.Dashes\)\n\t\t\tstroke = stroke\.Dash\(dashOffset, dashes\.\.\.\)`, `stroke = stroke.Dash(style.DashOffset, style.Dashes...)`, "E6.dash-scale"},
@@ -101,6 +105,7 @@ var Mutants = map[string][]Mutant{
 		{"PS eofill outside its guard", "renderers/ps/ps.go", `r\.w\.Write\(\[\]byte\(" fill"\)\)\n\t\t\}\n\t\tif style\.HasStroke\(\) && !strokeUnsupported \{\n\t\t\tr\.w\.Write\(\[\]byte\(" grestore"\)\)`, "r.w.Write([]byte(\" eofill\"))\n\t\t}\n\t\tif style.HasStroke() && !strokeUnsupported {\n\t\t\tr.w.Write([]byte(\" grestore\"))", "E6.enum"},
 	},
 	"C13": {
+		{"stitching functions collected in a []pdfDict", "renderers/pdf/writer.go", `\tfs := pdfArray\{\}\n`, "\tfs := []interface{}{}\n\tvar _ = []pdfDict{}\n", "E5.value-types"},
 		{"font object slot reserved only for a new subsetter", "renderers/pdf/writer.go", `\tw\.objOffsets = append\(w\.objOffsets, 0\)\n\tref := pdfRef\(len\(w\.objOffsets\)\)\n\tfonts\[font\] = ref\n\tif _, ok := w\.fontSubset\[font\]; !ok \{\n`, "\tif _, ok := w.fontSubset[font]; !ok {\n\t\tw.objOffsets = append(w.objOffsets, 0)\n\t}\n\tref := pdfRef(len(w.objOffsets))\n\tfonts[font] = ref\n\tif _, ok := w.fontSubset[font]; !ok {\n", "E5.fresh-ref"},
 		{"Subject filled from title", "renderers/pdf/writer.go", `info\["Subject"\] = encode\(w\.subject\)`, `info["Subject"] = encode(w.title)`, "E5.metadata"},
 		{"Length of the unfiltered stream", "renderers/pdf/writer.go", `v\.dict\["Length"\] = len\(b\)`, `v.dict["Length"] = len(v.stream)`, "E5.length"},
@@ -122,6 +127,8 @@ var Mutants = map[string][]Mutant{
 		{"rasterizer ignores the fill rule", "renderers/rasterizer/rasterizer.go", `\t\tr\.scanner\.SetWinding\(style\.FillRule != canvas\.EvenOdd\)\n`, ``, "E6.style-field"},
 	},
 	"C15": {
+		{"Fit expands only non-empty bounds", "canvas.go", `\t\t\t\tbounds = l\.path\.Bounds\(\)\n\t\t\t\tif l\.style\.HasStroke\(\) \{`, "\t\t\t\tbounds = l.path.Bounds()\n\t\t\t\tif !bounds.Empty() && l.style.HasStroke() {", "E11.fit-stroke"},
+		{"Fit forgets the top side", "canvas.go", `\t\t\t\t\tbounds\.X1 \+= hw\n\t\t\t\t\tbounds\.Y1 \+= hw\n`, "\t\t\t\t\tbounds.X1 += hw\n", "E11.fit-stroke"},
 		{"SetDashes re-uses the saved backing array", "canvas.go", `c\.Style\.Dashes = dashes`, `c.Style.Dashes = append(c.Style.Dashes[:0], dashes...)`, "E1.ctx-setter-alias"},
 		{"Rotate pre-multiplies", "canvas.go", `c\.view = c\.view\.Mul\(Identity\.Rotate\(rot\)\)`, `c.view = Identity.Rotate(rot).Mul(c.view)`, "E11.view-postmul"},
 		{"Pop restores the style only", "canvas.go", `c\.ContextState = c\.stack\[len\(c\.stack\)-1\]`, `c.Style = c.stack[len(c.stack)-1].Style`, "E11.ctx-stack"},
